@@ -85,9 +85,110 @@ pub fn node_obs(n: &Arc<stat::ResourceNode>) -> String {
     )
 }
 
+fn flow_rule_of(res: &str, spec: &str) -> Arc<flow::Rule> {
+    // id:thr:ivl[:calc(d|w):ctl(r|t):period:cold:maxq]
+    let p: Vec<&str> = spec.split(':').collect();
+    let g = |i: usize, d: &str| -> String { p.get(i).map(|x| x.to_string()).unwrap_or(d.to_string()) };
+    Arc::new(flow::Rule {
+        id: p[0].to_string(),
+        resource: res.to_string(),
+        threshold: parse_frac(p[1]),
+        stat_interval_ms: p[2].parse().unwrap(),
+        calculate_strategy: if g(3, "d") == "w" { flow::CalculateStrategy::WarmUp } else { flow::CalculateStrategy::Direct },
+        control_strategy: if g(4, "r") == "t" { flow::ControlStrategy::Throttling } else { flow::ControlStrategy::Reject },
+        warm_up_period_sec: g(5, "0").parse().unwrap(),
+        warm_up_cold_factor: g(6, "0").parse().unwrap(),
+        max_queueing_time_ms: g(7, "0").parse().unwrap(),
+        ..Default::default()
+    })
+}
+
+fn hs_rule_of(res: &str, spec: &str) -> Arc<hotspot::Rule> {
+    // id;metric(c|q);strategy(r|t);idx;key;thr;maxq;burst;dur;cap;k=v|k=v
+    let p: Vec<&str> = spec.split(';').collect();
+    let mut specific = HashMap::new();
+    if p.len() > 10 && !p[10].is_empty() {
+        for kv in p[10].split('|') {
+            let (k, v) = kv.split_once('=').unwrap();
+            specific.insert(k.to_string(), v.parse::<u64>().unwrap());
+        }
+    }
+    Arc::new(hotspot::Rule {
+        id: p[0].to_string(),
+        resource: res.to_string(),
+        metric_type: if p[1] == "c" { hotspot::MetricType::Concurrency } else { hotspot::MetricType::QPS },
+        control_strategy: if p[2] == "t" { hotspot::ControlStrategy::Throttling } else { hotspot::ControlStrategy::Reject },
+        param_index: p[3].parse().unwrap(),
+        param_key: p[4].to_string(),
+        threshold: p[5].parse().unwrap(),
+        max_queueing_time_ms: p[6].parse().unwrap(),
+        burst_count: p[7].parse().unwrap(),
+        duration_in_sec: p[8].parse().unwrap(),
+        params_max_capacity: p[9].parse().unwrap(),
+        specific_items: specific,
+    })
+}
+
+fn br_rule_of(res: &str, spec: &str) -> Arc<circuitbreaker::Rule> {
+    // id;strategy(s|r|c);retry;minreq;ivl;buckets;maxrt;thr
+    let p: Vec<&str> = spec.split(';').collect();
+    Arc::new(circuitbreaker::Rule {
+        id: p[0].to_string(),
+        resource: res.to_string(),
+        strategy: match p[1] {
+            "s" => circuitbreaker::BreakerStrategy::SlowRequestRatio,
+            "r" => circuitbreaker::BreakerStrategy::ErrorRatio,
+            _ => circuitbreaker::BreakerStrategy::ErrorCount,
+        },
+        retry_timeout_ms: p[2].parse().unwrap(),
+        min_request_amount: p[3].parse().unwrap(),
+        stat_interval_ms: p[4].parse().unwrap(),
+        stat_sliding_window_bucket_count: p[5].parse().unwrap(),
+        max_allowed_rt_ms: p[6].parse().unwrap(),
+        threshold: parse_frac(p[7]),
+    })
+}
+
 impl CaseExec for Exec {
     fn step(&mut self, op: &Op) -> String {
         match op.name.as_str() {
+            "flow.loadall" | "hs.loadall" | "br.loadall" => {
+                // rules=<res>/<spec>,...  : replaces the rules of every resource of the family in one call
+                let fam = op.name.split('.').next().unwrap().to_string();
+                let mut named: Vec<String> = Vec::new();
+                let mut pairs: Vec<(String, String)> = Vec::new();
+                for item in op.list("rules") {
+                    let (r, spec) = item.split_once('/').unwrap();
+                    if !named.contains(&r.to_string()) {
+                        named.push(r.to_string());
+                    }
+                    pairs.push((self.res(r), spec.to_string()));
+                }
+                for r in op.list("also") {
+                    if !named.contains(&r) {
+                        named.push(r);
+                    }
+                }
+                let ret = match fam.as_str() {
+                    "flow" => flow::load_rules(pairs.iter().map(|(r, s)| flow_rule_of(r, s)).collect()),
+                    "hs" => hotspot::load_rules(pairs.iter().map(|(r, s)| hs_rule_of(r, s)).collect()),
+                    _ => circuitbreaker::load_rules(pairs.iter().map(|(r, s)| br_rule_of(r, s)).collect()),
+                };
+                named.sort();
+                let held: Vec<String> = named
+                    .iter()
+                    .map(|r| {
+                        let full = self.res(r);
+                        let ids: Vec<String> = match fam.as_str() {
+                            "flow" => flow::get_traffic_controller_list_for(&full).iter().map(|c| c.rule().id.clone()).collect(),
+                            "hs" => hotspot::get_traffic_controller_list_for(&full).iter().map(|c| c.rule().id.clone()).collect(),
+                            _ => circuitbreaker::get_breakers_of_resource(&full).iter().map(|b| b.bound_rule().id.clone()).collect(),
+                        };
+                        format!("{}:{}", r, ids.join(","))
+                    })
+                    .collect();
+                format!("ret={} held={}{}", ret, held.join("|"), self.take_events())
+            }
             "clock" => format!("t={}", verif_clock::now_ns().unwrap()),
             "note" => "ok".into(),
             "adv" => {
